@@ -44,6 +44,8 @@ def instances(tier):
         out.append({"kind": "template", "gen": g, "free": nb, "which": "ids"})
         out.append({"kind": "template", "gen": g, "free": nb, "which": "name"})
         out.append({"kind": "timing", "gen": g})
+        out.append({"kind": "timing", "gen": g, "unicast": True})      # the answer's UDP source differs from the host that was asked (multi-homed console / host name)
+        out.append({"kind": "template", "gen": g, "free": 1, "which": "ids", "unicast": True})
         out.append({"kind": "duplicate", "gen": g})
         out.append({"kind": "others", "gen": g})
         for n in ([5] if tier == "quick" else [6, 8, 10, 12, 14, 16, 20]):
